@@ -21,7 +21,10 @@ CONSTANTS
     Hosts,          \* "" = not set (Host=+), else a host name
     Ports,          \* 0 = not set, else a port number
     UrlSels,        \* URL: selectors
-    SearchTokens, MaxSearch,    \* search strings: up to MaxSearch tokens
+    SearchTokens, MaxSearch,    \* search strings: up to MaxSearch tokens ...
+    SearchShapes,   \* ... plus whole strings: multi-word strings with digits-only words and other strings that give the
+                    \* plain Gopher line the look of another protocol's request grammar; long strings (block classes)
+    DeepNames6,     \* names of the deep tree kind (selector-length dimension)
     SearchSels,     \* selectors of search items (type 7): reserved characters, Virtual "?args"
     Views6,
     Kinds6, Inner6, HLs6        \* content trees: subject kind x LocalNames, inner names, handler lists
@@ -37,7 +40,7 @@ Entries ==
     \cup {x \in {E(ty, y, h, q) : ty \in Types, y \in RemoteSels, h \in Hosts, q \in Ports} : ~(x.host = "" /\ x.port = 0)}
     \cup {E("h", u, "", 0) : u \in UrlSels}
     \cup {E("i", "fake", "(NULL)", 0)}
-Searches == {x \in StringsUpTo(SearchTokens, MaxSearch) : SearchInScope(x)}
+Searches == {x \in StringsUpTo(SearchTokens, MaxSearch) \cup SearchShapes : SearchInScope(x)}
 Dummy == E("i", "fake", "(NULL)", 0)
 
 NoCase == [k |-> "file", n |-> "a", ik |-> "none", m |-> "in"]
@@ -46,6 +49,7 @@ Cases6 == {[k |-> k, n |-> n, ik |-> "none", m |-> "in"] : k \in Kinds6 \cap {"f
                                                               ik \in {"file", "dir"}, m \in Inner6}
                   : x.k = "mapdir" => Strip(x.m) = x.m}
           \cup {[k |-> "dir", n |-> n, ik |-> "file", m |-> "in"] : n \in LocalNames}
+          \cup {[k |-> "deep", n |-> n, ik |-> "none", m |-> "in"] : n \in DeepNames6}
 TreeVerdict(pp, cc, hh) ==
     LET bad == {x \in UNION {Listing(cc, d, hh) : d \in {y \in Dirs(cc, hh) : ~ListingFails(cc, y, hh)}} : ~EntryAgrees(pp, x)}
     IN IF bad = {} THEN "ok" ELSE "TreeDiffers"
@@ -60,7 +64,10 @@ Compute ==
               ELSE IF mode = "entry"
               THEN (IF EntryAgrees(p, e) THEN "ok" ELSE "EntryDiffers")
               ELSE (IF SearchReaches(p, Target(p, e), RootRef(p), s) = s THEN "ok"
-                    ELSE IF PlusFlagAmbiguity(p, s) THEN "PlusFlagAmbiguity" ELSE "SearchDiffers")
+                    ELSE IF PlusFlagAmbiguity(p, s) THEN "PlusFlagAmbiguity"
+                    ELSE IF SearchCapturedBy(p, Target(p, e), RootRef(p), s) # "none"
+                         THEN "SearchCapturedBy_" \o SearchCapturedBy(p, Target(p, e), RootRef(p), s)
+                    ELSE "SearchDiffers")
     /\ UNCHANGED <<mode, e, s, c, hl, p>>
 Spec == Init /\ [][Compute]_vars
 
@@ -68,5 +75,7 @@ EntriesAgree == res # "EntryDiffers"
 SearchesArrive == res # "SearchDiffers"
 TreesAgree == res # "TreeDiffers"
 \* expected to be violated while the findings are open (witnesses that the deviations are reachable)
-NoNamedDeviation == res \notin {"PlusFlagAmbiguity"}
+NoNamedDeviation == res \notin {"PlusFlagAmbiguity", "SearchCapturedBy_SpartanProtocol"}
+\* only the two recorded ambiguities of the plain Gopher line may occur
+OnlyKnownCaptures == ~StartsWith(res, "SearchCapturedBy_") \/ (res = "SearchCapturedBy_SpartanProtocol" /\ p = "G")
 =============================================================================
